@@ -449,6 +449,11 @@ impl PartialOrd for Natural {
         if l_bw != r_bw {
             return Some(l_bw.cmp(&r_bw));
         }
+        if l_bw == 0 {
+            // Both numbers are 0. We must not proceed, since shifting a digit
+            // by its number of leading zeros (i.e., `u64::BITS`) is an overflow.
+            return Some(Ordering::Equal);
+        }
 
         let (&l_msd, mut l_digits) = l_digits.split_last().unwrap();
         let (&r_msd, mut r_digits) = r_digits.split_last().unwrap();
